@@ -673,7 +673,7 @@ func (p *shParser) parseDQ() []Part {
 		b, conc := concChar(u)
 		if !conc {
 			if u.B != nil {
-				p.hazard(u, dqSpecial, "double-quoted word")
+				p.dqHazard(u)
 			}
 			lit = append(lit, u)
 			p.i++
@@ -831,4 +831,40 @@ func (p *shParser) parseParamArith() []Part {
 		parts = append(parts, Part{Kind: PLit, Lit: lit})
 	}
 	return parts
+}
+
+// dqHazard records when a data byte inside double quotes is active: a quote or backquote always,
+// a dollar sign when an expansion can follow, a backslash when it escapes the next character.
+func (p *shParser) dqHazard(u Unit) {
+	B := p.c.B
+	eq := func(t *sym.Term, chars string) *sym.Term {
+		var parts []*sym.Term
+		for i := 0; i < len(chars); i++ {
+			parts = append(parts, B.Eq(t, B.BV(uint64(chars[i]), 8)))
+		}
+		return B.Or(parts...)
+	}
+	const expStart = "{(?@#*!$-_0123456789abcdefghijklmnopqrstuvwxyzABCDEFGHIJKLMNOPQRSTUVWXYZ"
+	const escapable = "$`\"\\\n"
+	h := eq(u.B, "\"`")
+	var next *Unit
+	if p.i+1 < len(p.u) {
+		next = &p.u[p.i+1]
+	}
+	nextIn := func(chars string) *sym.Term {
+		switch {
+		case next == nil:
+			return B.False
+		case next.B != nil:
+			return eq(next.B, chars)
+		case next.D != nil:
+			return B.Bool(strings.ContainsAny(chars, "-0123456789"))
+		default:
+			return B.Bool(strings.IndexByte(chars, next.S[0]) >= 0)
+		}
+	}
+	h = B.Or(h, B.And(eq(u.B, "$"), nextIn(expStart)), B.And(eq(u.B, "\\"), nextIn(escapable)))
+	if !h.IsFalse() {
+		*p.hz = append(*p.hz, Hazard{Cond: h, What: "double-quoted word"})
+	}
 }
